@@ -20,7 +20,7 @@ def invariant(*clauses, **kw):
 class Contract:
 	def __init__(self, qualname, types=None, requires=(), ensures=(), raises=None, returns=None, yields=None,
 	             loops=None, writes=(), inline=False, instances=None, assume_after=None, prop=None,
-	             ghost=None, trusted=False, ensures_raise=None, note=None, may_raise=(), lemmas=(), axioms=()):
+	             ghost=None, trusted=False, ensures_raise=None, note=None, may_raise=(), lemmas=(), axioms=(), after_loop=None, before_loop=None):
 		self.qualname = qualname
 		self.types = types or {}
 		self.requires = list(requires)
@@ -40,6 +40,8 @@ class Contract:
 		self.ensures_raise = ensures_raise or {}
 		self.note = note
 		self.lemmas = list(lemmas)           # instantiated lemma statements (clauses) assumed at entry
+		self.after_loop = after_loop or {}
+		self.before_loop = before_loop or {}
 		self.axioms = tuple(axioms)          # names of definitional axioms (spec.AXIOMS) added to the hypotheses
 
 
